@@ -77,8 +77,13 @@ def atom_truth(lf, pred):
     """Truth of the (last) condition on this path whose term satisfies pred; None if absent."""
     v = None
     for (t, c, _bb) in lf.conds:
+        neg = False
+        while t[0] == "un" and t[1] == "Not":
+            t, neg = look(t[2]), not neg
         if pred(t):
             v = truth(c)
+            if neg and v is not None:
+                v = not v
     return v
 
 
